@@ -598,13 +598,23 @@ def _chrono_year(b, tb, bb, op, term):
         if isinstance(x, tuple) and x and x[0] == "call" and parse_callee(x[1])[2] == "year" and "Datelike" in x[1] or \
                 (isinstance(x, tuple) and x and x[0] == "call" and x[1].endswith("::year") and "chrono" in x[1]):
             return True
-    # dominated by success of from_ymd_opt(<same operand>, …)
+    # dominated by success of from_ymd_opt(<same operand>, …) — directly, or inside a workspace helper that is
+    # handed the same operand and passes its parameter to from_ymd_opt
+    F = tb.facts
     for i, t in b.calls():
+        hit = False
         if t["callee"].endswith("NaiveDate::from_ymd_opt") and t["args"]:
-            if tb.operand(t["args"][0]) == term:
-                # success edge: some block after the call that switches on the Option/Result and continues
-                if b.dominates(i, bb) and i != bb and _passes_success_edge(b, i, bb):
-                    return True
+            hit = tb.operand(t["args"][0]) == term
+        elif t["callee"] in F.bodies:
+            cb = F.bodies[t["callee"]]
+            for k, a in enumerate(t["args"]):
+                if tb.operand(a) == term and k < cb.argc:
+                    ctb = Terms(F, cb, inline_depth=0)
+                    for _, u in cb.calls():
+                        if u["callee"].endswith("NaiveDate::from_ymd_opt") and u["args"] and ctb.operand(u["args"][0]) == ("param", k, cb.local_name(k + 1)):
+                            hit = "Result" in cb.ret or "Option" in cb.ret
+        if hit and b.dominates(i, bb) and i != bb and _passes_success_edge(b, i, bb):
+            return True
     return False
 
 
